@@ -696,6 +696,86 @@ fn reg_order_sweep(rep: &mut Report, max_len: usize) {
     }
 }
 
+/// `pe.rs` RVA -> section memory through the `pe_memory_at_rva` hook vs the Lean model
+/// (`FH/PeMem.lean`): section descriptions whose RVA range and data length need not agree (empty,
+/// inverted, larger or smaller than the data, overlapping .rdata/.xdata), RVAs at every boundary.
+fn pemem_grid(rep: &mut Report, p: &mut Prng, n_random: usize) {
+    use framehop::verif_hooks as hooks;
+    let bounds: [u32; 12] = [0, 1, 0x1000, 0x107f, 0x1080, 0x1081, 0x1100, 0x2000, 0x7fff_ffff, 0x8000_0000, 0xffff_fffe, 0xffff_ffff];
+    let lens: [usize; 7] = [1, 2, 0x7f, 0x80, 0x81, 0x100, 0x1000];
+    let mut cases: Vec<(Option<(u32, u32, usize)>, Option<(u32, u32, usize)>, Option<(u32, u32, usize)>, bool, u32)> = Vec::new();
+    // systematic: one section, every start/stop pair of the grid, every length, RVAs around all boundaries
+    for &a in &bounds {
+        for &b in &bounds {
+            for &l in &lens {
+                let mut rvas: Vec<u32> = vec![a, a.wrapping_add(1), a.wrapping_sub(1), b, b.wrapping_sub(1), b.wrapping_add(1)];
+                for d in [-1i64, 0, 1] {
+                    rvas.push((a as i64 + l as i64 + d).clamp(0, u32::MAX as i64) as u32);
+                }
+                for rva in rvas {
+                    cases.push((Some((a, b, l)), None, None, false, rva));
+                    cases.push((None, Some((a, b, l)), None, false, rva));
+                    cases.push((None, None, Some((a, b, l)), true, rva));
+                }
+            }
+        }
+    }
+    // random: both unwind-info sections present, overlapping / adjacent / short data
+    for _ in 0..n_random {
+        let mut sect = |p: &mut Prng| -> Option<(u32, u32, usize)> {
+            if p.chance(1, 8) {
+                return None;
+            }
+            let a = *p.pick(&bounds[2..8]) + p.below(4) as u32;
+            let b = if p.chance(1, 6) { a.wrapping_sub(p.below(3) as u32) } else { a + p.below(0x200) as u32 };
+            Some((a, b, 1 + p.below(0x180) as usize))
+        };
+        let (r, x, t) = (sect(p), sect(p), sect(p));
+        let base = *p.pick(&[r, x, t]).as_ref().map(|s| &s.0).unwrap_or(&0x1000);
+        let rva = base.wrapping_add(p.below(0x220) as u32).wrapping_sub(2);
+        cases.push((r, x, t, p.chance(1, 3), rva));
+    }
+    let show = |s: &Option<(u32, u32, usize)>| match s {
+        None => "-".to_string(),
+        Some((a, b, l)) => format!("{}:{}:{}", hex(*a as u64), hex(*b as u64), hex(*l as u64)),
+    };
+    let mut lines = Vec::new();
+    let mut impls = Vec::new();
+    let bufs: Vec<Vec<u8>> = (0..3).map(|i| vec![i as u8; 0x1000]).collect();
+    for (i, (r, x, t, want_text, rva)) in cases.iter().enumerate() {
+        let mk = |s: &Option<(u32, u32, usize)>, k: usize| s.map(|(a, b, l)| (&bufs[k][..l], a..b));
+        let (rr, xx, tt) = (mk(r, 0), mk(x, 1), mk(t, 2));
+        let got = catch(|| hooks::pe_memory_at_rva(rr.clone(), xx.clone(), tt.clone(), *want_text, *rva));
+        let out = match got {
+            Err(loc) => {
+                rep.add_finding(Finding { props: vec!["C14".into(), "C09".into()], kind: "oracle".into(), key: "pe-memory-at-rva-panic".into(), what: format!("memory_at_rva panicked at {loc}"), case: format!("r={} x={} t={} text={} rva={:#x}", show(r), show(x), show(t), want_text, rva), impl_out: "panic".into(), model_out: String::new() });
+                "panic".to_string()
+            }
+            Ok(None) => "none".to_string(),
+            Ok(Some((sec, off, len))) => format!("sec={sec} off={} len={}", hex(off as u64), hex(len as u64)),
+        };
+        lines.push(format!("pemem {i} r={} x={} t={} text={} rva={}", show(r), show(x), show(t), if *want_text { 1 } else { 0 }, hex(*rva as u64)));
+        impls.push(out);
+    }
+    let model = crate::model::run_model(&lines);
+    rep.cases += lines.len() as u64;
+    rep.compared_with_model += lines.len() as u64;
+    for ((l, i), m) in lines.iter().zip(impls.iter()).zip(model.iter()) {
+        rep.count(&format!("pemem -> {}", i.split(' ').next().unwrap_or("")));
+        if i != m {
+            rep.add_finding(Finding {
+                props: vec!["C14".into(), "C03".into()],
+                kind: "correspondence".into(),
+                key: "pe-memory-at-rva".into(),
+                what: "PeSections::{unwind_info,text}_memory_at_rva differs from the Lean model (FH/PeMem.lean)".into(),
+                case: l.clone(),
+                impl_out: i.clone(),
+                model_out: m.clone(),
+            });
+        }
+    }
+}
+
 /// A function with unusual unwind codes (xmm saves, machine frame, raw large allocation, far
 /// saves, more pushes / epilog pops than a cacheable rule can hold): structurally valid, outside
 /// what the ground-truth simulator covers.
@@ -752,6 +832,10 @@ pub fn gen_unusual_pe_func(p: &mut Prng, begin: u32) -> PeFuncSpec {
 pub fn run(tier: &str, seed: u64) -> Report {
     let mut rep = Report::new("pe");
     reg_order_sweep(&mut rep, if tier == "thorough" { 8 } else { 5 });
+    {
+        let mut pm = Prng::new(seed.wrapping_mul(0x51ed_270b_0a35_9d1f).wrapping_add(7));
+        pemem_grid(&mut rep, &mut pm, if tier == "thorough" { 200_000 } else { 20_000 });
+    }
     let mut p = Prng::new(seed.wrapping_mul(0x6a09_e667_f3bc_c909).wrapping_add(5));
     let n: u64 = if tier == "thorough" { 4000 } else { 250 };
     for id in 0..n {
